@@ -5,6 +5,9 @@ from ..core import modules_for
 
 def run(ctx):
     q = ctx.tier == "quick"
+    if getattr(ctx, "replay", None) and "(vlib/precmd.py)" in open(ctx.replay).read():
+        from .. import precmd, abswrite      # a pre-command record: C01 reads the clauses roundtrip / reopen / crash of it
+        return abswrite.replay(ctx, ctx.replay, precmd.CATS)
     run_common(ctx, "C01", modules_for("C01"), stride=2 if q else 1, l1_scripts=250 if q else 2500)
     if not getattr(ctx, "replay", None):
         from .. import blockcamp
@@ -17,3 +20,5 @@ def run(ctx):
         alac.run(ctx, "C01", 96 if q else 960)
         from .. import alaccore       # the ALAC codec CORE (lean/SfModel/AlacCore.lean …): library packets decoded by the model, escape packets re-encoded, hostile packets
         alaccore.run(ctx, "C01", 60 if q else 900)
+        from .. import precmd         # round trips after the format-affecting COMMANDS a writer may issue before the audio (SFC_WAVEX_SET_AMBISONIC, SFC_SET_ADD_PEAK_CHUNK, SFC_RF64_AUTO_DOWNGRADE, switches, codec parameters) x every lossless (container, encoding)
+        precmd.run(ctx, "C01")
